@@ -15,6 +15,9 @@ func init() {
 	register(&PropertyCheck{ID: "C02", Level: "other", Run: checkC02, Canaries: []Canary{
 		{Name: "identifier-constant-changed", Rule: "R2.1", Where: "ConnAck", Edits: []Edit{{"const.go", "ServerKeepAlive        Ident = 0x13", "ServerKeepAlive        Ident = 0x14"}}},
 		{Name: "pubrel-without-reserved-bit", Rule: "R2.2", Where: "PubRel", Edits: []Edit{{"pubrel.go", "\tp.fixed = bits(PUBREL | 1<<1)", "\tp.fixed = bits(PUBREL)"}}},
+		{Name: "username-password-flag-constants-swapped", Rule: "R2.6", Where: "const PasswordFlag", Edits: []Edit{{"connect.go", "\tPasswordFlag\n\tUsernameFlag\n", "\tUsernameFlag\n\tPasswordFlag\n"}}},
+		{Name: "encoder-writes-flags-shifted", Rule: "R2.3", Where: "Connect", Edits: []Edit{{"connect.go", "\ti += p.flags.fill(b, i)                      // Flags", "\ti += (p.flags >> 1).fill(b, i)                      // Flags"}}},
+		{Name: "will-qos-bits-not-cleared-on-replacement", Rule: "R2.3", Where: "Connect", Edits: []Edit{{"connect.go", "bits(^(WillQoS2 | WillQoS1))", "bits(^WillQoS2 | WillQoS1)"}}},
 		{Name: "reason-string-under-wrong-id", Rule: "R2.1", Where: "Auth", Edits: []Edit{{"auth.go", "\ti += p.reasonString.fillProp(b, i, ReasonString)", "\ti += p.reasonString.fillProp(b, i, ServerReference)"}}},
 		{Name: "remaining-length-omits-properties", Rule: "R2.4", Where: "ConnAck", Edits: []Edit{{"connack.go", "\ti += vbint(p.variableHeader(_LEN, 0)).fill(b, i) // remaining length", "\ti += vbint(2).fill(b, i) // remaining length"}}},
 		{Name: "property-length-omits-user-properties", Rule: "R2.4", Where: "Publish", Edits: []Edit{
@@ -54,14 +57,14 @@ func (p *Prog) flagsFieldOf(typ string) (int, bool) {
 }
 
 type specWalk struct {
-	p      *Prog
-	tn     string
-	st     *packetState
-	will   *packetState
-	obs    map[string]string
-	evs    []layoutEvent
-	pos    int
-	errs   map[string]string // rule -> first problem
+	p    *Prog
+	tn   string
+	st   *packetState
+	will *packetState
+	obs  map[string]string
+	evs  []layoutEvent
+	pos  int
+	errs map[string]string // rule -> first problem
 }
 
 func (w *specWalk) fail(rule, format string, a ...interface{}) {
@@ -176,6 +179,7 @@ func checkC02(p *Prog, c *Check) {
 	c.Rule("R2.2", "the first item emitted is the first byte: type code of the packet in the upper nibble and the reserved bits of the specification in the lower (PUBLISH: DUP/QoS/RETAIN)")
 	c.Rule("R2.3", "the items after the fixed header are those of the specification for that packet type, in its order, each with its wire type and from the right field; optional items are present exactly as their presence rule says (will, user name and password by the CONNECT flags; packet identifier iff QoS 1/2)")
 	c.Rule("R2.4", "every length prefix equals the bytes it covers: remaining length = everything after it; property length = the properties that follow")
+	c.Rule("R2.6", "the exported CONNECT flag constants and subscription option constants have the bit values of the specification (§3.1.2.3, §3.8.3.1)")
 	c.Rule("R2.5", "optional-section chain: where trailing sections may be omitted (PUBACK family, DISCONNECT, AUTH), properties present ⇒ property length present ⇒ reason code present")
 	c.Explanation = "Oracle: the MQTT v5.0 layout table carried by the checker (ordered fields, presence rules, allowed property sets, wire kinds), keyed by exported names. For every abstract well-formed packet state (same generator as C01) the encoder's event sequence — obtained by evaluating its SSA form with the wire primitives observed — is walked against the table. Minimality of the variable byte integers themselves is C15's subject; primitive encodings are C01 R1.4."
 	c.Trusted = []string{"go/types + go/ssa (x/tools v0.29.0) faithful IR", "the layout table transcribed from the MQTT v5.0 specification (DESIGN Appendix A)", "wire kinds are recognised from the shape of each codec (width summaries), not from names"}
@@ -243,6 +247,9 @@ func checkC02(p *Prog, c *Check) {
 				continue
 			}
 			n++
+			if st.Will != nil {
+				wp = st.Will // the message of the last SetWill call
+			}
 			w := &specWalk{p: p, tn: tn, st: st, will: wp, obs: obs, evs: evs, errs: map[string]string{}}
 			w.walk(codeOf[tn])
 			for r, e := range w.errs {
@@ -266,6 +273,7 @@ func checkC02(p *Prog, c *Check) {
 		_ = sp
 	}
 	checkIdentConstants(p, c)
+	checkFlagConstants(p, c)
 	c.Floor("packet types", len(packetTypeNames()), 15, "15 MQTT packet types")
 }
 
@@ -475,6 +483,77 @@ func (w *specWalk) field(sf specField, reasonPresent *bool) {
 		return
 	}
 	w.next()
+	if sf.Name == "#flags" && w.tn == "ConnAck" && e.Val.k == 'i' {
+		// connect acknowledge flags (§3.2.2.1): bit 0 session present, bits 7-1 reserved
+		var want int64
+		if w.obs["SessionPresent()"] == "true" {
+			want = 1
+		}
+		if e.Val.i != want {
+			w.fail("R2.3", "CONNACK acknowledge flags %#02x; with SessionPresent() = %s the specification requires %#02x", e.Val.i, w.obs["SessionPresent()"], want)
+		}
+	}
+	if sf.Name == "#flags" && w.tn == "Connect" {
+		w.connectFlags(e)
+	}
+}
+
+// connectFlags: the CONNECT flags byte written must be the specification's function of the packet
+// (§3.1.2.3): bit 7 user name present, bit 6 password present, bit 5 will retain, bits 4-3 will QoS,
+// bit 2 will present, bit 0 reserved = 0.  Bit 1 (clean start) has no second observer and is left to R2.6.
+func (w *specWalk) connectFlags(e *layoutEvent) {
+	if e.Val.k != 'i' {
+		w.fail("R2.3", "the CONNECT flags byte written is not a determined value (%s)", e.Val.String())
+		return
+	}
+	var want int64
+	if w.obs["Username()"] != "\"\"" {
+		want |= specConnectFlags["UsernameFlag"]
+	}
+	if w.obs["Password()"] != "\"\"" {
+		want |= specConnectFlags["PasswordFlag"]
+	}
+	if w.hasWill() {
+		want |= specConnectFlags["WillFlag"]
+		if w.obs["Will().Retain()"] == "true" {
+			want |= specConnectFlags["WillRetain"]
+		}
+		var q int64
+		fmt.Sscan(w.obs["Will().QoS()"], &q)
+		want |= q << 3
+	}
+	cs := specConnectFlags["CleanStart"]
+	if e.Val.i&^cs != want {
+		w.fail("R2.3", "CONNECT flags byte %#02x; by the specification (user name %s, password %s, will %v retain %s QoS %s) it is %#02x (clean start aside)", e.Val.i, w.obs["Username()"], w.obs["Password()"], w.hasWill(), w.obs["Will().Retain()"], w.obs["Will().QoS()"], want)
+	}
+}
+
+// checkFlagConstants (R2.6): the exported CONNECT flag and subscription option constants have the bit values
+// the specification gives to the flags of those names.
+func checkFlagConstants(p *Prog, c *Check) {
+	n := 0
+	for _, tab := range []map[string]int64{specConnectFlags, specSubOptions} {
+		var names []string
+		for k := range tab {
+			names = append(names, k)
+		}
+		sort.Strings(names)
+		for _, name := range names {
+			cn, ok := p.Pkg.Scope().Lookup(name).(*types.Const)
+			if !ok {
+				continue // the library need not export every name
+			}
+			n++
+			v, _ := constantInt(cn)
+			if v != tab[name] {
+				c.Bad("R2.6", "const "+name, p.Pos(cn.Pos()), fmt.Sprintf("value %#02x, the specification assigns %#02x to it", v, tab[name]))
+			} else {
+				c.OK("R2.6", "const "+name, p.Pos(cn.Pos()), fmt.Sprintf("%#02x", v))
+			}
+		}
+	}
+	c.Measured["flag_constants"] = n
+	c.Floor("flag constants", n, 8, "user name, password, will retain, will QoS (2), will flag, clean start and at least one subscription option are exported")
 }
 
 func (w *specWalk) list(sf specField) {
